@@ -5,6 +5,8 @@ import Pdlv.Resolve
 import Pdlv.Ref
 import Pdlv.Inherit
 import Pdlv.Seg
+import Pdlv.Analyzer
+import Pdlv.ToJson
 
 namespace Pdlv.Driver
 open Lean (Json)
@@ -207,6 +209,17 @@ def handle (st : State) (req : Json) : Except String (State × Json) := do
         | _, _ => pure (Json.mkObj [("r", "none")])
       | _ => throw s!"unknown inherit case {k}"
     pure (st, Json.mkObj [("status", "ok"), ("out", Json.arr outs.toArray)])
+  | "analyze" =>
+    -- {"op":"analyze","file":<parsed ast json>}
+    let f ← J.file (← req.getObjVal? "file")
+    let rangeJ : SrcRange → Json := fun r =>
+      Json.mkObj [("start", Json.num r.start.offset), ("end", Json.num r.stop.offset)]
+    match Analyzer.analyze f with
+    | .ok f' => pure (st, Json.mkObj [("status", "ok"), ("declarations", TJ.decls f')])
+    | .diags ds =>
+      pure (st, Json.mkObj [("status", "err"), ("diagnostics", Json.arr (ds.map fun d =>
+        Json.mkObj [("code", Json.str s!"E{d.code}"), ("labels", Json.arr (d.labels.map rangeJ).toArray)]).toArray)])
+    | .panic p => pure (st, Json.mkObj [("status", "panic"), ("site", Json.str (reprStr p))])
   | "types" =>
     -- which declarations the Rust model supports
     let f ← getFile st
